@@ -1,4 +1,4 @@
----- MODULE SparseMatrix_TTrace_1790904031 ----
+---- MODULE SparseMatrix_TTrace_1790904227 ----
 EXTENDS Sequences, SparseMatrix, TLCExt, Toolbox, Naturals, TLC
 
 _expression ==
@@ -35,7 +35,7 @@ _next ==
 \* to `JsonSerialize`. For example, a sub-sequence of _TETrace.
     \* ASSUME
     \*     LET J == INSTANCE Json
-    \*         IN J!JsonSerialize("SparseMatrix_TTrace_1790904031.json", _TETrace)
+    \*         IN J!JsonSerialize("SparseMatrix_TTrace_1790904227.json", _TETrace)
 
 =============================================================================
 
@@ -87,7 +87,7 @@ Parsing and semantic processing can take forever if the trace below is long.
 \*---- MODULE SparseMatrix_TETrace ----
 \*EXTENDS IOUtils, SparseMatrix, TLC
 \*
-\*trace == IODeserialize("SparseMatrix_TTrace_1790904031.bin", TRUE)
+\*trace == IODeserialize("SparseMatrix_TTrace_1790904227.bin", TRUE)
 \*
 \*=============================================================================
 \*
@@ -107,7 +107,7 @@ trace ==
 
 =============================================================================
 
----- CONFIG SparseMatrix_TTrace_1790904031 ----
+---- CONFIG SparseMatrix_TTrace_1790904227 ----
 CONSTANTS
     BlockSize = 2
     ResetFreeOnClear = FALSE
@@ -135,4 +135,4 @@ CONSTANT
 ALIAS
     _expression
 =============================================================================
-\* Generated on Fri Oct 02 01:20:32 UTC 2026
+\* Generated on Fri Oct 02 01:23:49 UTC 2026
